@@ -527,9 +527,11 @@ Section Classify.
   Definition once_fn : string := "snoopy_tsrm_init".
   Definition single_thread_fns : list string :=      (* the atfork child handler runs in a process that has one thread *)
     match atfork_of fns with Some (Some (_, _, c)) => [c] | _ => [] end.
-  (** snoopy_tsrm_init is referenced by pthread_once in the constructor and nowhere else *)
-  Definition once_only (refs : list (string * list string)) : bool :=
-    forallb (fun e => negb (str_in once_fn (snd e)) || String.eqb (fst e) "snoopy_tsrm_ctor") refs.
+  (** snoopy_tsrm_init is referenced by the pthread_once call of the constructor (and of a load-time initialiser that
+      consists of that call) and nowhere else *)
+  Definition once_only (ctors : list string) (refs : list (string * list string)) : bool :=
+    forallb (fun e => negb (str_in once_fn (snd e)) || String.eqb (fst e) "snoopy_tsrm_ctor")
+            (filter (fun e => negb (str_in (fst e) ctors && is_load_init fns (fst e))) refs).
 
   (** accesses to the object a never-written pointer designates count as accesses to that object *)
   Definition pointers_to (g : gobj) : list gobj :=
